@@ -81,7 +81,12 @@ def run_rule(repo: Repo, name: str) -> List[Ob]:
     if name not in c:
         if name not in RULES:
             raise AnalysisError(f"rule {name} is not registered")
-        c[name] = RULES[name](repo)
+        try:
+            c[name] = RULES[name](repo)
+        except AnalysisError as e:
+            from .rules import HOME
+            home = HOME.get(name, None)
+            c[name] = [Ob(name, "<rule>", "analysis-error", "error", tuple(home) if home else tuple(sorted(PROPS)), "", 0, str(e))]
     return c[name]
 
 
@@ -110,8 +115,9 @@ def run_property(repo: Repo, pid: str, tier: str, seed: int, verbose: bool = Fal
             known_hits.append(o)
         else:
             violations.append(o)
+    errors = [o for o in obs if o.status == "error"]
     n_ob = sum(1 for o in obs if o.status in ("ok", "violation"))
-    if n_ob == 0:
+    if n_ob == 0 and not errors:
         raise AnalysisError(f"{pid}: no obligation was generated (vacuous run)")
     rules_run = sorted({o.rule for o in obs})
     extra = {}
@@ -134,6 +140,10 @@ def run_property(repo: Repo, pid: str, tier: str, seed: int, verbose: bool = Fal
     st_fail = bool(st and st.get("failed"))
     print(f"{pid}: {n_ob} obligations, {n_ob - len(violations) - len(known_hits)} hold, {len(known_hits)} known findings, "
           f"{len(violations)} unlisted violations; rules={','.join(rules_run)}; evidence={ev}")
+    for o in errors:
+        print(f"ANALYSIS-ERROR rule {o.rule} cannot decide its obligations for {pid}: {o.msg}")
+    if errors:
+        return 1 if violations else 2
     if st_fail:
         print(f"ANALYSIS-ERROR self-test of the rules serving {pid} failed: {st['failed']}")
         return 2 if not violations else 1
